@@ -1681,7 +1681,14 @@ impl<'a> Socket<'a> {
 
                 // Acceptable ACK range (both inclusive)
                 let mut ack_min = self.local_seq_no;
-                let ack_max = self.local_seq_no + unacknowledged;
+                // ... and not beyond what has actually been transmitted (SND.MAX): octets (or a
+                // FIN) still waiting in the queue cannot have been received by anyone.
+                let mut sent_max = self.remote_last_seq.max(self.remote_max_seq);
+                if self.timer.is_zero_window_probe() {
+                    // (the octet a zero-window probe carries is not recorded as sent)
+                    sent_max += 1;
+                }
+                let ack_max = (self.local_seq_no + unacknowledged).min(sent_max);
 
                 // If we have sent a SYN, it MUST be acknowledged.
                 if sent_syn {
